@@ -674,6 +674,12 @@ CCopyable(t) ==
     /\ CCopyConstructible(t) /\ CMovable(t)
     /\ CAssignSelf(t, LRef(t)) /\ CAssignSelf(t, LRef(Const(t))) /\ CAssignSelf(t, RRef(Const(t)))
 CSemiregular(t) == CCopyable(t) /\ CDefaultInit(t)
+\* equality_comparable<T>: t == u, t != u on const lvalues yield something boolean-testable.  Stated for scalars (built-in
+\* ==; for enumerations, pointers, member pointers and nullptr_t too) and for the zoo's classes (no operator== -> false),
+\* and for references to them
+EqComparablePre(t) == LET r == RemoveRef(t) IN IsScalarT(r) \/ K(r) = "class"
+CEqComparable(t) == IsScalarT(RemoveRef(t))
+CRegular(t) == CSemiregular(t) /\ CEqComparable(t)
 RECURSIVE CSwappable(_)
 CSwappable(t0) ==
     IF ~Referenceable(t0) THEN FALSE
@@ -701,7 +707,7 @@ OpTraits == {"is_default_constructible", "is_copy_constructible", "is_move_const
 QueryTraits == {"rank", "extent0", "extent1", "alignment_of"}
 UnaryConcepts == {"c:integral", "c:signed_integral", "c:unsigned_integral", "c:floating_point", "c:destructible",
                   "c:default_initializable", "c:move_constructible", "c:copy_constructible", "c:movable", "c:copyable",
-                  "c:semiregular", "c:swappable"}
+                  "c:semiregular", "c:swappable", "c:equality_comparable", "c:regular"}
 UnaryValTraits == PrimaryTraits \cup CompositeTraits \cup PropTraits \cup OpTraits \cup QueryTraits \cup UnaryConcepts
 
 ClassNameOf(t) == Uq(ElemT(t)).n
@@ -716,6 +722,8 @@ CtorFamily == {"is_copy_constructible", "is_move_constructible", "is_trivially_c
 UPre(tr, t) ==
     CASE tr = "alignment_of" -> AlignPre(t)
       [] tr \in CtorFamily -> OpArrPre(t)
+      [] tr = "c:equality_comparable" -> EqComparablePre(t)
+      [] tr = "c:regular" -> EqComparablePre(t) /\ OpArrPre(t)
       [] tr = "is_trivially_copyable" -> TCopyablePre(t)
       [] tr = "is_trivial" -> TrivialPre(t)
       \* gcc 12 forgets the element destructor for arrays in __is_trivially_constructible / noexcept(T()): left open
@@ -799,6 +807,8 @@ UVal(tr, t) ==
       [] tr = "c:copyable" -> CCopyable(t)
       [] tr = "c:semiregular" -> CSemiregular(t)
       [] tr = "c:swappable" -> CSwappable(t)
+      [] tr = "c:equality_comparable" -> CEqComparable(t)
+      [] tr = "c:regular" -> CRegular(t)
 
 \* ---------------------------------------------------------------------------------------------
 \* Dispatch: unary transformation traits
